@@ -658,8 +658,77 @@ pub fn check_sweep(c: &SweepCase, probe: &Probe) -> Verdict {
     Verdict::Pass
 }
 
+/// Diffs that name files but select no block: only deletions, only a binary change, only a mode change, only a
+/// pure rename, and combinations. Next to them sits an untouched file with a violating block.
+#[derive(Clone, Debug, Serialize, Deserialize)]
+pub struct NoSelection {
+    /// bit 0 deletion, bit 1 binary change, bit 2 mode change, bit 3 pure rename
+    pub kinds: u8,
+    pub unified: u8,
+    pub staged: bool,
+}
+
+pub fn no_selection_cases() -> Vec<NoSelection> {
+    let mut out = vec![];
+    for kinds in 1..16u8 {
+        for (unified, staged) in [(0u8, true), (3, false)] {
+            out.push(NoSelection { kinds, unified, staged });
+        }
+    }
+    out
+}
+
+pub fn check_no_selection(c: &NoSelection, probe: &Probe) -> Verdict {
+    let violating = "# <block name=\"legacy\" keep-sorted>\nb\na\n# </block>\n";
+    let mut files: Vec<(String, Option<String>, Option<String>, Option<String>)> = vec![("legacy.py".into(), Some(violating.into()), Some(violating.into()), None)];
+    if c.kinds & 1 != 0 {
+        files.push(("gone.py".into(), Some(violating.replace("legacy", "gone")), None, None));
+    }
+    if c.kinds & 2 != 0 {
+        files.push(("blob.bin".into(), Some("\0\u{1}old".into()), Some("\0\u{2}new and longer".into()), None));
+    }
+    if c.kinds & 4 != 0 {
+        files.push(("@x:tool.sh".into(), Some(violating.replace("legacy", "tool")), Some(violating.replace("legacy", "tool")), None));
+    }
+    if c.kinds & 8 != 0 {
+        files.push(("moved_to.py".into(), Some(violating.replace("legacy", "moved")), Some(violating.replace("legacy", "moved")), Some("moved_from.py".into())));
+    }
+    let sb = Sandbox::new();
+    let mode = DiffMode { unified: c.unified % 11, kind: if c.staged { 1 } else { 2 }, algo: 0, renames: true };
+    let diff = gitcase::make_diff(&sb, &StatePair { files }, &mode);
+    if diff.trim().is_empty() {
+        return Verdict::Unspecified("git produced no diff");
+    }
+    probe.nontrivial();
+    for args in [vec![], vec!["list"]] {
+        probe.child();
+        probe.evals(1);
+        let o = sb.bw(&BwRun::diff(&args, diff.as_bytes()));
+        let what = format!("C02 [diff selecting nothing, kinds {:#06b}, args {args:?}]", c.kinds);
+        if o.timed_out || o.panicked() {
+            return Verdict::Fail(format!("{what}: crash\n--- diff ---\n{diff}\n{}", o.brief()));
+        }
+        if o.code != Some(0) || !o.stderr.trim().is_empty() {
+            return Verdict::Fail(format!("{what}: the diff touches no line of any block, yet the run reports something or fails (untouched blocks validated?)\n--- diff ---\n{diff}\n{}", o.brief()));
+        }
+        if args.is_empty() {
+            if !o.stdout.trim().is_empty() {
+                return Verdict::Fail(format!("{what}: validation run printed to stdout\n{}", o.brief()));
+            }
+        } else {
+            match parse_listing(&o.stdout) {
+                Ok(l) if l.is_empty() => {}
+                Ok(l) => return Verdict::Fail(format!("{what}: {} untouched block(s) listed\n--- diff ---\n{diff}\n{}", l.len(), o.brief())),
+                Err(e) => return Verdict::Fail(format!("{what}: {e}\n{}", o.brief())),
+            }
+        }
+    }
+    Verdict::Pass
+}
+
 pub fn run(run: &mut Run) {
-    run.rule = "random: 1..3 files (js, sh, rs, py, c) x 2..7 uniquely named non-nested blocks (own-line line comments, own-line block comments, everything on one line, a start tag spread over three lines with the edited attribute on the middle one, both tags inside one multi-line block comment, or nested in an untouched outer block whose start tag shares the comment) separated by 5 padding lines, each with 0..2 rules (keep-sorted, keep-unique, line-pattern, line-count, check-lua echo/nil; violating or not by chance) and a *set* of edit classes: inside (replace / insert / pure deletion / blanking of a content line / removal of trailing blanks only), tag-only (substitute or insert a character of an attribute value, append an attribute, change the last attribute's value), end-tag-only (text after </block>, whitespace in </ block >), plus edits of padding lines (outside) and untouched blocks; a 600-byte attribute in one tag of seven; multi-byte text before the tag and inside it (an attribute in front of the edited one) in 25%; real `git diff -U0..10`, in a third of the cases with a deleted file and an emptied file in front of the others; optional path arguments. Oracle: (a) `list` in diff mode = exactly the inside/tag-only blocks with is_content_modified exactly for inside; (b) diff-mode diagnostics = full-scan diagnostics restricted to the selected blocks' extents, exit status accordingly; (c) with path arguments = full scan of those files + diff-mode result of the others. enumerated sweep: every byte position of the start tag, the comment text before and after it, the content, the whole end-tag comment and the code after it in 3 one-line block templates (ASCII, multi-byte before the tag, indented) x {substitute, insert, delete}. Non-trivial (random) = a violating untouched block, a violating selected block and a tag-only block; (sweep) = a region boundary or a position where byte and character columns differ.".into();
+    run.enumerate("no-selection", no_selection_cases(), Some("every non-empty combination of {deletion, binary change, mode change, pure rename} entries x {staged -U0, HEAD -U3}"), check_no_selection);
+    run.rule = "enumerated no-selection: diffs made only of deletions / binary changes / mode changes / pure renames (every combination) next to an untouched violating file: nothing is validated, `list` prints `{}`. random: 1..3 files (js, sh, rs, py, c) x 2..7 uniquely named non-nested blocks (own-line line comments, own-line block comments, everything on one line, a start tag spread over three lines with the edited attribute on the middle one, both tags inside one multi-line block comment, or nested in an untouched outer block whose start tag shares the comment) separated by 5 padding lines, each with 0..2 rules (keep-sorted, keep-unique, line-pattern, line-count, check-lua echo/nil; violating or not by chance) and a *set* of edit classes: inside (replace / insert / pure deletion / blanking of a content line / removal of trailing blanks only), tag-only (substitute or insert a character of an attribute value, append an attribute, change the last attribute's value), end-tag-only (text after </block>, whitespace in </ block >), plus edits of padding lines (outside) and untouched blocks; a 600-byte attribute in one tag of seven; multi-byte text before the tag and inside it (an attribute in front of the edited one) in 25%; real `git diff -U0..10`, in a third of the cases with a deleted file and an emptied file in front of the others; optional path arguments. Oracle: (a) `list` in diff mode = exactly the inside/tag-only blocks with is_content_modified exactly for inside; (b) diff-mode diagnostics = full-scan diagnostics restricted to the selected blocks' extents, exit status accordingly; (c) with path arguments = full scan of those files + diff-mode result of the others. enumerated sweep: every byte position of the start tag, the comment text before and after it, the content, the whole end-tag comment and the code after it in 3 one-line block templates (ASCII, multi-byte before the tag, indented) x {substitute, insert, delete}. Non-trivial (random) = a violating untouched block, a violating selected block and a tag-only block; (sweep) = a region boundary or a position where byte and character columns differ.".into();
     run.assumptions = vec![
         "pure line deletions are only generated where no earlier net line shift exists in the file (K1 excluded by construction, counted)".into(),
         "the sweep edits the OLD line only (the parsed NEW line is always the intact template); a deletion directly adjoining the start tag's `<` or `>` is unspecified and not judged".into(),
